@@ -259,6 +259,19 @@ func checkC20(c *Ctx) {
 		}
 	}
 	c.Check(len(rtBad) == 0, "R20.1", "zapcore.Level.MarshalText", "round-trip", mt.Pos(), "UnmarshalText(MarshalText(l)) == l for every level (%v)", rtBad)
+	// ... and MarshalText is total: the level endpoint reports whatever level is in force (an unnamed one as
+	// Level(n)); a marshaling error would turn its answer into a 500
+	var mtBad []string
+	for v := int64(-128); v <= 127; v++ {
+		res, err := it.Run(mt, []IVal{IInt(v)})
+		if err != nil || len(res) != 2 || res[0].K != ivBytes || res[1].K != ivNil {
+			mtBad = append(mtBad, fmt.Sprintf("Level(%d): %v %v", v, res, err))
+			if len(mtBad) > 3 {
+				break
+			}
+		}
+	}
+	c.Check(len(mtBad) == 0, "R20.1", "zapcore.Level.MarshalText", "total", mt.Pos(), "evaluated for all 256 values: MarshalText yields text and a nil error (%v)", mtBad)
 	// the other text entry points funnel into UnmarshalText
 	for _, e := range []struct{ recv, name string }{{"Level", "Set"}, {"", "ParseLevel"}, {"Level", "UnmarshalText"}} {
 		var fn *ssa.Function
